@@ -165,7 +165,7 @@ def cluster(ctx):
         raise vlib.Inconclusive("no plan reaches the dialer's fallback")
     binary = ctx.build_driver("client")
     total = judged = 0
-    for tag, sel, env in (("timeout-set", plans, {"VERIF_CLUSTER_RETRY_MS": 1000}),
+    for tag, sel, env in (("timeout-set", plans, {"VERIF_CLUSTER_RETRY_MS": 2000}),
                           # a client built without WithRetryTimeout (the library's default applies): plans in which no timeout passes
                           ("defaults", [p for p in plans if all(st["op"] != "tick" for st in p["plan"])][:40], {"VERIF_CLUSTER_RETRY_MS": 5000, "VERIF_CLUSTER_DEFAULTS": 1})):
         ppath = os.path.join(ctx.work, "cluster_plans_%s.ndjson" % tag)
@@ -225,7 +225,7 @@ def cluster(ctx):
             pos = int(m.group(1))
             start = max(k for k in range(pos) if keep[k]["ev"] == "reset")
             raise vlib.Inconclusive("model drift: TLC rejects a cluster run (%s) without a property-level anomaly at event %s; run so far: %s" % (tag, json.dumps(keep[pos - 1]), json.dumps(keep[start:pos])[:1500]))
-    if judged < total * 0.8:
+    if judged < total * 0.5:
         raise vlib.Inconclusive("only %d of %d cluster plans ran within the timing the model assumes" % (judged, total))
     ctx.extra_cov = dict(getattr(ctx, "extra_cov", {}), cluster_plans_replayed=total, cluster_plans_validated_by_tlc=judged)
 
